@@ -18,6 +18,9 @@ CLAIMED = {
  "C21": ("proof: Buckets.Observe is proved against the property's sentence: with wfB(d) (last bound +Inf, bounds strictly increasing, bucket counts sum to Count) it increments exactly the first bucket whose upper bound admits v, or the last one when none does (NaN; IEEE comparison in SMT FloatingPoint), leaves all other buckets and all bounds alone, adds 1 to Count and v to Sum, and re-establishes wfB (sum lemma sumC_store by induction). MakeBuckets is proved to copy the declared bounds in order, add exactly one +Inf bucket iff none is declared, and start with zero counts.",
          "float addition is SMT fp.add RNE; the initial establishment of the sum/ordering part of wfB by MakeBuckets for sorted input is not proved (quantifier alternation too slow to claim) and the codegen half (declared boundaries -> Range list) is not yet under contract",
          "DESIGN §8 C21"),
+ "C12": ("proof: each of the four export visitors passed to Store.Range (Collect$1, writeSocketMetrics$1, HandleVarz$1, HandleGraphite$1) is proved, on every return path including the error returns, to leave every lock that existed on entry in its entry state (lock.balanced), to have no label-set producer goroutine outstanding (handoff.drained: the channel of every `go EmitLabelSets` spawned in the visitor has been read to its end) and not to release the metric's read lock while the producer still needs it (handoff.lock-cover); EmitLabelSets is proved to send exactly one LabelSet per live tuple, in order, with that tuple's datum, and then close the channel.",
+         "the hand-off rule of DESIGN §3.4 (producer effects applied at the go statement) is trusted; writers, http and context calls are opaque; an export that never ends (blocked writer) and cancellation during a write are outside; Store.Range's own lock balance is covered with C11/C14",
+         "DESIGN §8 C12"),
 }
 
 NA_REASON = {
